@@ -183,6 +183,11 @@ func Scenarios() []*Scenario {
 	kv("shorter-by-one", preLong, []byte("second-key"), []byte("012345678"))
 	kv("grow-then-shrink", preLong, []byte("x"), []byte("grow"), []byte("a-key-of-twenty-bytes"), make([]byte, 29), []byte("second-key"), []byte("01234"))
 	kv("multi", preK, []byte("k"), []byte("old-value"), []byte("k2"), []byte("v2"), []byte("k"), []byte("xx"), []byte(""), []byte("empty-key"))
+	// one key listed several times in one call: every pair is priced against what the pair before left
+	kv("same-key-growing", nil, []byte("kk"), make([]byte, 10), []byte("kk"), make([]byte, 20), []byte("kk"), make([]byte, 45))
+	kv("same-key-grow-shrink-grow", preK, []byte("k"), make([]byte, 30), []byte("k"), []byte("s"), []byte("k"), make([]byte, 12))
+	kv("same-key-back-to-old", preK, []byte("k"), []byte("a-longer-value-than-old"), []byte("k"), []byte("old-value"))
+	kv("same-key-delete-recreate", preK, []byte("k"), []byte{}, []byte("k"), make([]byte, 5))
 
 	// ---- ESDTTransfer ----
 	xf := func(name string, dest bool, own string, mk func(s *Scn) node.Call) {
